@@ -86,7 +86,18 @@ def run(chk):
                     pass
                 nsent += 1
             if len(got_plain) < len(inc):
-                k = rng.choice([1, 2, 7, 16, 64, 4096])
+                k = rng.choice([1, 2, 7, 16, 64, 4096, 0])
+                if k == 0:
+                    # a zero-length read returns nothing and consumes nothing
+                    try:
+                        z = wfile.read(0) if use_file else wsock.recv(0)
+                    except Exception as e:
+                        z = 'raised ' + exn_name(e)
+                    if z != b'':
+                        chk.violation('stream', 'stream:read0:%s' % secret.hex(), {'case': {'secret': secret.hex(), 'through': 'file' if use_file else 'socket'}, 'observed': repr(z)[:120]},
+                                      'a zero-length read through the decrypting %s wrapper returned %s' % ('file' if use_file else 'socket', repr(z)[:60] if isinstance(z, str) else '%d bytes' % len(z)))
+                        break
+                    continue
                 try:
                     got_plain += (wfile.read(k) if use_file else wsock.recv(k))
                 except Exception as e:
